@@ -56,6 +56,16 @@ CHECKS = {
              "of the result.",
              note=TB + "Model: coq/model/BulkOps.v, Glob_c17.v (proved equal to Glob.v). Patterns containing '[' are outside the glob model; shared Signal objects between frames are outside.",
              technique="Coq proof over a Gallina model of the list-editing loops + model/implementation correspondence + oracle-based search", ref="5/C17"),
+ "C12": dict(text="Theorems (coq/props/C12.v) prove for all source/target pairs: copy_frame is refused iff the id exists (target unchanged); the new frame "
+             "equals the source frame field by field; referenced ECUs and used definitions are brought along; the effective value (explicit, else "
+             "default) of every attribute of the copied frame, its signals and brought ECUs equals the source's in all cells of explicit/default x "
+             "absent/same/other default; every object already in the target keeps structure and effective values under copy_frame, copy_ecu, "
+             "copy_signal, merge and any sequence of them (fold_left); copy_ecu_with_frames copies exactly the requested tx/rx frames; merge = fold "
+             "of copy_frame. A _refuted witness shows the namespace hypothesis (attribute names not shared across define categories) is needed. Tie: "
+             "normal form and effective-value table of the target after generated histories vs the model; search with a snapshot oracle incl. "
+             "deep-copy independence.",
+             note=TB + "Model: coq/model/CopyOps.v (after the fixes cc0f6c0, 3434241, 7a6c373 in /repo). frame_by_id is a scan here (C10 covers the memo). direct_ecu_only=True deleting non-communicating ECUs is by design and not claimed as a violation.",
+             technique="Coq proof over a Gallina model of copy/merge + model/implementation correspondence on histories + oracle-based search", ref="5/C12"),
 }
 NOT_YET = {}
 props = [json.loads(l) for l in open(os.path.join(V, "properties.jsonl"))]
